@@ -488,7 +488,12 @@ class Context:
     def _create_error_constructor(self, error_name: str) -> JSCallableObject:
         """Create an Error constructor (Error, TypeError, SyntaxError, etc.)."""
         # Add prototype first so it can be captured in closure
-        error_prototype = JSObject()
+        # TypeError.prototype etc. inherit from Error.prototype, so every error
+        # object is an `instanceof Error`
+        if error_name != "Error" and "Error" in self._globals:
+            error_prototype = JSObject(self._globals["Error"].get("prototype"))
+        else:
+            error_prototype = JSObject()
         error_prototype.set("name", error_name)
         error_prototype.set("message", "")
 
